@@ -177,7 +177,7 @@ def random_config(r, max_text=40, max_hits=14, n_texts=6, self_repro=False):
         cov = text[s0:e0]
         cut = r.randint(max(135, len(cov) - 25), len(cov) - 2)
         val = cov[:cut] + cov[cut + 1:] if r.random() < 0.5 else cov[: len(cov) - r.randint(1, 15)]
-        tables[r.randrange(ndec)].setdefault(text, []).append(("trim", val, "shortened", s0, e0, ()))
+        tables[r.randrange(ndec)].setdefault(text, []).append(("trim", val, r.choice(["shortened", ""]), s0, e0, ()))
         for _ in range(r.randint(1, 3)):
             a0 = r.randint(max(s0, e0 - 20), e0 - 1)
             b0 = r.randint(a0 + 1, e0)
